@@ -15,10 +15,12 @@ package geom
 //@ recpred GEmpty(g) = g.ptr == nil || (g.gtype == 0 && (forall k :: 0 <= k && k < len(deref(g.ptr, GeometryCollection).geoms) ==> GEmpty(deref(g.ptr, GeometryCollection).geoms[k]))) || (g.gtype == 1 && PtEmpty(deref(g.ptr, Point))) || (g.gtype == 2 && LSEmpty(deref(g.ptr, LineString))) || (g.gtype == 3 && PolyEmpty(deref(g.ptr, Polygon))) || (g.gtype == 4 && MPEmpty(deref(g.ptr, MultiPoint))) || (g.gtype == 5 && MLSEmpty(deref(g.ptr, MultiLineString))) || (g.gtype == 6 && MPolyEmpty(deref(g.ptr, MultiPolygon)))
 
 //@ func Point.IsEmpty
+//@   notypeinv
 //@   ensures result <==> PtEmpty(p)
 //@ func LineString.IsEmpty
 //@   ensures result <==> LSEmpty(s)
 //@ func Polygon.IsEmpty
+//@   notypeinv
 //@   ensures result <==> PolyEmpty(p)
 //@ func MultiPoint.IsEmpty
 //@   ensures result <==> MPEmpty(m)
